@@ -907,3 +907,77 @@ func EmbedPages(n int) []GenDoc {
 	}
 	return out
 }
+
+// NormTwin: the same page with every double-quoted attribute value respelt in a way a
+// normalising cache key would fold together with the original — upper case (0), first
+// letter of every word in upper case (1), doubled and padded blanks (2), lower case (3).
+// The twin is run before (and after) the original in one process: whatever the library
+// remembers under a key that was lower-cased, trimmed or blank-collapsed, the original
+// page then meets an entry that was computed from a different spelling.
+//
+// scope 0 respells every value, scope 1 only those in the <html> and <head> start tags (the
+// document-level declarations), scope 2 every value outside those two tags.
+func NormTwin(d GenDoc, kind, scope int) GenDoc {
+	b := d.Bytes
+	var out bytes.Buffer
+	inTag, inVal, docTag := false, false, false
+	var val []byte
+	flush := func() {
+		s := string(val)
+		k := kind % 4
+		if scope%3 == 1 && !docTag || scope%3 == 2 && docTag {
+			k = -1
+		}
+		switch k {
+		case 0:
+			s = strings.ToUpper(s)
+		case 1:
+			up := true
+			rs := []rune(s)
+			for i, c := range rs {
+				if up && c >= 'a' && c <= 'z' {
+					rs[i] = c - 32
+				}
+				up = c == ' ' || c == ':' || c == '/' || c == '-' || c == ','
+			}
+			s = string(rs)
+		case 2:
+			s = " " + strings.ReplaceAll(s, " ", "  ") + " "
+		case 3:
+			s = strings.ToLower(s)
+		}
+		out.WriteString(s)
+		val = val[:0]
+	}
+	for i := 0; i < len(b); i++ {
+		c := b[i]
+		switch {
+		case inVal:
+			if c == '"' {
+				flush()
+				inVal = false
+				out.WriteByte(c)
+			} else {
+				val = append(val, c)
+			}
+		case inTag:
+			out.WriteByte(c)
+			if c == '"' && i > 0 && b[i-1] == '=' {
+				inVal = true
+			} else if c == '>' {
+				inTag = false
+			}
+		default:
+			out.WriteByte(c)
+			if c == '<' && i+1 < len(b) && (b[i+1] >= 'a' && b[i+1] <= 'z' || b[i+1] >= 'A' && b[i+1] <= 'Z') {
+				inTag = true
+				rest := strings.ToLower(string(b[i+1 : min(i+6, len(b))]))
+				docTag = strings.HasPrefix(rest, "html") || strings.HasPrefix(rest, "head>") || strings.HasPrefix(rest, "head ")
+			}
+		}
+	}
+	if inVal {
+		out.Write(val)
+	}
+	return GenDoc{Bytes: out.Bytes(), URL: d.URL, Origin: fmt.Sprintf("normtwin:%d.%d:%s", kind%4, scope%3, d.Origin), Features: []string{"norm-twin"}, UTF8: d.UTF8}
+}
